@@ -149,8 +149,29 @@ PAIRS = [('read_hex', 'write_hex'), ('write_hex', 'read_hex'), ('read_byte', 'wr
          ('ptr_add', 'xor_hex_to_ptr'), ('ptr_sub', 'read_hex'), ('ptr_index', 'ptr_index'), ('read_byte', 'ptr_flip'), ('xor_byte_from_ptr', 'zero_ptr')]
 
 
+class ChainMem:
+    """every other value set runs on ONE memory: the two call sites are executed again from the label 'again' with all
+    visible state (buffer cells, pointers, variables) re-poked, so only hidden macro / pointer-register state carries
+    over - as in a loop body"""
+
+    def __init__(self, b, buf, dw, ww):
+        self.b, self.mem = b, None
+        self.cell_words = [((buf + c * dw) >> ww) + o for c in range(B) for o in (0, 1)]
+
+    def get(self, chained):
+        if not chained:
+            return self.b.fresh(), None
+        if self.mem is None:
+            self.mem = self.b.fresh()
+            self.orig = [(wa, self.mem.get_word(wa)) for wa in self.cell_words]
+            return self.mem, None
+        for wa, v in self.orig:
+            self.mem.set_word(wa, v)
+        return self.mem, 'again'
+
+
 def hex_program(opa, opb, w):
-    lines = ['stl.startup_and_init_all 16', HEX_OPS[opa].format(k=0), HEX_OPS[opb].format(k=1), "stl.output_char '.'", 'stl.loop']
+    lines = ['stl.startup_and_init_all 16', 'again:', HEX_OPS[opa].format(k=0), HEX_OPS[opb].format(k=1), "stl.output_char '.'", 'stl.loop']
     n = nptr(w)
     for k in (0, 1):
         lines += ['p%d:' % k, 'hex.vec %d' % n, 'q%d:' % k, 'hex.vec %d' % n, 'idx%d:' % k, 'hex.vec %d' % n, 'd%d:' % k, 'hex.hex', 'e%d:' % k, 'hex.vec 2', 'f%d:' % k, 'hex.vec 4',
@@ -188,6 +209,7 @@ def run_hex_pair(case):
     else:
         plan = VALUE_SETS if case.get('full', True) else VALUE_SETS[:2]
         pairs = list(itertools.product(range(B), repeat=2))
+    chain = ChainMem(b, buf, dw, ww)
     for vs_i, (cells0, sval, tval) in enumerate(plan):
         for i, j in pairs:
             lo = {'ptr_dec': 1, 'ptr_sub': 2}
@@ -197,7 +219,7 @@ def run_hex_pair(case):
             idxs = [(-i if vs_i % 2 else (B - 1 - i)), (j // 2 - j)]
             model = {'cells': [[0, v] for v in cells0], 'ptr': [i, j], 'd': [3, 12], 'e': [0x21, 0xDE], 'f': [0x1234, 0xFEDC], 's': [sval, sval ^ 5],
                      't': [tval, tval ^ 0x3C], 'u': [0xA55A, 0x0FF0], 'q': [0, 0], 'idx': idxs}
-            m_ = b.fresh()
+            m_, start = chain.get(vs_i % 2 == 1)
             for c_i, v in enumerate(cells0):
                 b.set(m_, buf + c_i * dw, 1, v, 8)
             for k in (0, 1):
@@ -211,9 +233,9 @@ def run_hex_pair(case):
                 b.set(m_, 'u%d' % k, 4, model['u'][k])
             apply_hex(opa, model, 0, w)
             apply_hex(opb, model, 1, w)
-            r = b.run(m_)
+            r = b.run(m_, start=start)
             count += 1
-            info = {'ops': [opa, opb], 'w': w, 'cells': [i, j], 'value_set': vs_i}
+            info = {'ops': [opa, opb], 'w': w, 'cells': [i, j], 'value_set': vs_i, 're_executed_on_same_memory': start is not None}
             if r['cause'] != 'Looping' or r['out'] != b'.':
                 return Violation('c08:%s+%s:termination' % (opa, opb), dict(info, cause=r['cause'], out=r['out'].decode('latin-1'), fault=r['fault']), cl)
             for c_i in range(B):
@@ -256,7 +278,7 @@ BIT_PAIRS = [('xor_to_ptr', 'xor_from_ptr'), ('xor_from_ptr', 'xor_to_ptr'), ('p
 
 
 def bit_program(opa, opb, w):
-    lines = ['stl.startup code_start', 'bit.pointers.ptr_init', 'code_start:', BIT_OPS[opa].format(k=0), BIT_OPS[opb].format(k=1), "stl.output_char '.'", 'stl.loop']
+    lines = ['stl.startup code_start', 'bit.pointers.ptr_init', 'code_start:', 'again:', BIT_OPS[opa].format(k=0), BIT_OPS[opb].format(k=1), "stl.output_char '.'", 'stl.loop']
     for k in (0, 1):
         lines += ['p%d:' % k, 'bit.vec %d' % w, 'd%d:' % k, 'bit.bit', 's%d:' % k, 'bit.bit']
     if w == 16:
@@ -279,6 +301,7 @@ def run_bit_pair(case):
     buf = b.addr('buf')
     cl = ['macro=bit.' + opa, 'macro=bit.' + opb, 'w=%d' % w]
     count = distinct = 0
+    chain = ChainMem(b, buf, dw, ww)
     for vs_i, cells0 in enumerate([[0] * B, [1] * B, [(i * 5 + 1) % 3 % 2 for i in range(B)]]):
         for i, j in itertools.product(range(B), repeat=2):
             if (opa == 'ptr_dec' and i < 1) or (opb == 'ptr_dec' and j < 1) or (opa == 'ptr_inc' and i + 1 >= B) or (opb == 'ptr_inc' and j + 1 >= B):
@@ -287,7 +310,7 @@ def run_bit_pair(case):
             ptr = [i, j]
             d = [1, 0]
             s = [1, vs_i & 1]
-            m_ = b.fresh()
+            m_, start = chain.get(vs_i >= 1)
             for c_i, v in enumerate(cells0):
                 b.set(m_, buf + c_i * dw, 1, v, 1)
             for k in (0, 1):
@@ -312,9 +335,9 @@ def run_bit_pair(case):
                     ptr[k] += 1
                 elif op == 'ptr_dec':
                     ptr[k] -= 1
-            r = b.run(m_)
+            r = b.run(m_, start=start)
             count += 1
-            info = {'ops': ['bit.' + opa, 'bit.' + opb], 'w': w, 'cells': [i, j], 'value_set': vs_i}
+            info = {'ops': ['bit.' + opa, 'bit.' + opb], 'w': w, 'cells': [i, j], 'value_set': vs_i, 're_executed_on_same_memory': start is not None}
             if r['cause'] != 'Looping' or r['out'] != b'.':
                 return Violation('c08:bit.%s+%s:termination' % (opa, opb), dict(info, cause=r['cause'], fault=r['fault']), cl)
             for c_i in range(B):
